@@ -123,6 +123,17 @@ THEOREMS = [
     "OllamaVerif.C13.equalFold_ascii_iff",
     "OllamaVerif.C13.nameEqualFold_iff",
     "OllamaVerif.C13.equalFold_names_same_cache_link",
+    "OllamaVerif.C13.existingResult_fq",
+    "OllamaVerif.C13.handler_paths_agree",
+    "OllamaVerif.C13.handler_name_confined",
+    "OllamaVerif.C13.blob_handler_confined",
+    "OllamaVerif.C13.manifest_layers_confined",
+    "OllamaVerif.C13.registry_handler_confined",
+    "OllamaVerif.C13.hexDecode_lower",
+    "OllamaVerif.C13.digest_spellings_same_file_cache",
+    "OllamaVerif.C13.digest_spellings_same_file_legacy_partial",
+    "OllamaVerif.C13.newLayer_digest_accepted",
+    "OllamaVerif.C13.digest_clause_all",
     "OllamaVerif.Tie.C13.first_sets_match",
     "OllamaVerif.Tie.C13.rest_sets_match",
     "OllamaVerif.Tie.C13.length_limits_match",
@@ -279,6 +290,8 @@ REQUIRED_COUNTERS = [
     "ext_accepted", "ext_digest_only", "ext_rejected_scheme", "ext_rejected_digest", "ext_rejected_name",
     # the regression corpus of every driver that has one was read (corpus/C13/{model,names,blob}.txt)
     "corpus_model", "corpus_names", "corpus_blob",
+    # the real HTTP handlers over a scratch store with decoys outside
+    "handler_requests", "handler_names_valid", "handler_names_invalid", "handler_found", "handler_blob_found", "handler_fs_changes",
     # directed families
     "fold_family", "fold_direct", "utf8_names", "utf8_sample_2byte", "utf8_sample_3byte", "utf8_sample_4byte",
 ]
@@ -392,6 +405,6 @@ OPS_OF = {
     "model": {"mname", "mpath", "vpartM", "nfold"},
     "names": {"nname", "vpartN"},
     "blob": {"digest", "getfile", "n2p", "mfpath", "snd", "resolve", "fold", "hist", "p2n"},
-    "server": {"mp", "blobs", "clean", "join", "canon", "enum", "copy"},
+    "server": {"mp", "blobs", "clean", "join", "canon", "enum", "copy", "hname", "hreq", "hblob"},
     "client": {"ext", "split"},
 }
